@@ -101,3 +101,51 @@ const char *hx_hex(const uint8_t *p, size_t n) {
 	for (size_t i = 0; i < n && o + 4 < sizeof ring[0]; i++) o += (size_t) sprintf(b + o, "%02x", p[i]);
 	b[o] = 0; return b;
 }
+
+/* ---- symbol table (nm -n output) for mapping sanitizer pcs to function names */
+#include "sanhooks.h"
+typedef struct { uintptr_t addr; char name[56]; } sym_t;
+static sym_t *syms; static int nsyms;
+void hx_symtab_load(void) {
+	const char *p = getenv("VERIF_SYMTAB"); if (!p) return;
+	FILE *f = fopen(p, "r"); if (!f) return;
+	char line[512]; int cap = 0;
+	while (fgets(line, sizeof line, f)) {
+		unsigned long a; char t; char name[400];
+		if (sscanf(line, "%lx %c %399s", &a, &t, name) != 3) continue;
+		if (t != 'T' && t != 't' && t != 'W' && t != 'w') continue;
+		if (nsyms == cap) { cap = cap ? cap * 2 : 4096; syms = realloc(syms, sizeof(sym_t) * (size_t) cap); }
+		syms[nsyms].addr = a; snprintf(syms[nsyms].name, sizeof syms[nsyms].name, "%s", name); nsyms++;
+	}
+	fclose(f);
+}
+const char *hx_sym(uintptr_t pc) {
+	int lo = 0, hi = nsyms - 1, best = -1;
+	while (lo <= hi) { int mid = (lo + hi) / 2; if (syms[mid].addr <= pc) { best = mid; lo = mid + 1; } else hi = mid - 1; }
+	return best >= 0 ? syms[best].name : "?";
+}
+static int san_seen; static char *emitted_cls[64]; static int n_emitted;
+int hx_san_last_was_write;
+int hx_emit_san_events(const char *what) {
+	int n = 0; hx_san_last_was_write = 0;
+	for (; san_seen < san_nevents(); san_seen++) {
+		const san_event_t *e = san_event(san_seen);
+		/* first frame that belongs to the library */
+		const char *fn = "?"; char stack[600]; size_t so = 0; stack[0] = 0;
+		for (int i = 0; i < e->npcs; i++) {
+			if (!e->pcs[i]) { so += (size_t) snprintf(stack + so, sizeof stack - so, "| "); continue; }
+			const char *s = hx_sym(e->pcs[i] - (i ? 1 : 0));
+			if (so + 60 < sizeof stack) so += (size_t) snprintf(stack + so, sizeof stack - so, "%s ", s);
+			if (!strcmp(fn, "?") && !strncmp(s, "bidib_", 6)) fn = s;
+		}
+		if (e->is_write) hx_san_last_was_write = 1;
+		char cls[200]; snprintf(cls, sizeof cls, "sanitizer kind=%s %s fn=%s", e->kind, e->is_write ? "write" : "read", fn);
+		n++;
+		int dup = 0; for (int k = 0; k < n_emitted; k++) if (!strcmp(emitted_cls[k], cls)) dup = 1;
+		if (dup) { res_printf("C sanitizer_events_repeated 1\n"); continue; }     /* one witness per class and child is enough */
+		if (n_emitted < 64) emitted_cls[n_emitted++] = strdup(cls);
+		res_violation(cls, "%s; access size %d; stack: %s", what, e->size, stack);
+	}
+	if (san_count() > san_nevents()) hx_san_last_was_write = 1;   /* event buffer overflowed: be conservative */
+	return n;
+}
